@@ -1961,7 +1961,66 @@ func c12Gen(r *Rand, tier string) []interface{} {
 	for i := 0; i < nSeq/3; i++ {
 		out = append(out, c12NestGzipCase(rg))
 	}
+	// the three pools one by one: request k leaves a pooled object dirty (a panic after partial writes), request k+1
+	// takes it from the pool and is judged alone (own Rand: the streams above keep their cases)
+	rp := NewRand(rg.U64())
+	for i := 0; i < nSeq/4; i++ {
+		out = append(out, c12SeqPoolCase(rp, i))
+	}
 	return out
+}
+
+// c12SeqPoolCase: a sequence on ONE connection slot in which a request dirties one of the three pooled objects of the
+// response path and is followed by requests that take that object from its pool: templates' bytes.Buffer (a buffered
+// page, then a panic: the deferred Put hands the buffer back with the page in it), gzip's pooled gzip.Writer (compressed
+// output begun, then a panic: putWriter closes and returns it) and ResponseBuffer's copy buffer from respBufPool (a copy
+// as long as the buffer, from a plain reader, then a panic; the buffer goes back filled). The followers are short, so
+// that anything left in the object would show: C12_three_pools_independent says each is answered as if alone.
+func c12SeqPoolCase(r *Rand, i int) *c12In {
+	kind := i % 4
+	c := c12Cfg{Templates: kind != 1 || r.Bool(), Gzip: kind == 1 || kind == 3 || r.Chance(30), Log: r.Bool(), Header: r.Chance(30),
+		Errors: r.Pick(c12ErrModes)}
+	html := c12Op{K: "set", A: "Content-Type", B: "text/html; charset=utf-8"}
+	pn := c12Op{K: "panic", A: r.Pick(c12PanicKinds)}
+	w := func(s string) c12Op { return c12Op{K: "w", D: s} }
+	dirt := "DIRTY-" + strings.Repeat("Z", r.Range(1, 40)) + "-"
+	rep := []int{1, 3, 700, 2048, 2500}[r.Intn(5)] // up to 16-byte units x 2500 = longer than the 32 KiB copy buffer
+	unit := (dirt + "0123456789abcdef")[:16]
+	ck := r.Pick([]string{"copy", "rf", "copyn"})
+	big := c12Op{K: ck, D: unit, R: rep, N: rep * 16}
+	in := &c12In{Cfg: c}
+	add := func(path string, ae bool, ops ...c12Op) {
+		in.Seq = append(in.Seq, c12In{Path: path, AE: ae, Script: ops})
+	}
+	short := func(path string, ae bool) {
+		k := r.Pick([]string{"w", "copy", "rf", "copyn"})
+		d := r.Pick([]string{"ok", "<p>x</p>", "short page", "0"})
+		add(path, ae, c12Op{K: "set", A: "X-C12", B: "after"}, c12BodyOp(r, k, d))
+	}
+	switch kind {
+	case 0: // templates' buffer
+		add("/x.html", r.Bool(), html, w(dirt), big, pn)
+		short("/x.html", r.Bool())
+		add("/y.html", false, html, pn)
+		short("/x", false)
+	case 1: // gzip's writer
+		add("/x.txt", true, w(dirt), big, c12Op{K: "f"}, w(dirt), pn)
+		short("/x.txt", true)
+		add("/x.txt", true, big, pn)
+		short(r.Pick([]string{"/x.txt", "/x.html"}), true)
+	case 2: // the copy buffer, streaming and buffering
+		add("/x.txt", false, big, pn)
+		short("/x.txt", false)
+		add("/x.html", false, big, pn)
+		short("/x.html", false)
+	default: // all three at once
+		add("/x.html", true, html, big, w(dirt), pn)
+		short("/x.html", true)
+		add("/x.txt", true, big, c12Op{K: "f"}, pn)
+		short("/x.txt", true)
+		short("/x.html", false)
+	}
+	return in
 }
 
 // c12NestGzipCase: a nest on a gzip site in which every request accepts gzip and produces a body (a few bytes up to
